@@ -403,6 +403,10 @@ function onPathCall(ctx, st, method, a) {
       m[name] = { path: modelPath, value, st }
       if (!ctx.quiet) ctx.log.push(`R.r ${st.tag} ${name} model=${enc(modelPath)}`)
       if (modelPath) checkDataPath(ctx, st, 'model:' + name, modelPath, value)
+      if (modelPath && (name === 'nv' || name === 'nval')) {
+        // the generator binds these two names only to expressions that are not assignable
+        c11Violation(ctx, 'model_path_for_non_assignable', `model:${name} in ${st.tag}: the expression is not assignable (arithmetic, literal, call, loop index or an item of a list without a data path), yet it was given the model path ${enc(modelPath)}`)
+      }
     }
     if (generalPath !== undefined && generalPath !== null) {
       if (!ctx.quiet) ctx.log.push(`R.r ${st.tag} ${name} general=${enc(generalPath)}`)
@@ -538,6 +542,9 @@ function wrapContent(content, tag, ctx) {
 }
 
 // ---------------------------------------------------------------- serialisation of the node tree
+// in a lock-step run every instance goes through the same history, so the order in which the
+// listeners of one event were registered is content (it is the order they are called in)
+let LISTENERS_IN_ORDER = false
 function serListeners(n) {
   const et = n._$eventTarget
   if (!et) return undefined
@@ -551,7 +558,8 @@ function serListeners(n) {
         any = true
         // a multiset: re-registering an unchanged dynamic listener moves it to the end, which is
         // over-approximation, not staleness
-        out[prefix + k] = arr.map((x) => (x.f.name || '') + '/' + x.data).sort()
+        out[prefix + k] = arr.map((x) => (x.f.name || '') + '/' + x.data)
+        if (!LISTENERS_IN_ORDER) out[prefix + k].sort()
       }
     }
   }
@@ -1353,6 +1361,14 @@ function runWorld(job) {
 
 // ---------------------------------------------------------------- C14: lock-step of several bundles
 function runLockstep(job) {
+  LISTENERS_IN_ORDER = true
+  try {
+    return runLockstepInner(job)
+  } finally {
+    LISTENERS_IN_ORDER = false
+  }
+}
+function runLockstepInner(job) {
   const res = { id: job.id, status: 'ok', counters: {}, violation: null }
   const lists = []
   for (const b of job.bundles) {
